@@ -45,7 +45,7 @@ impl Joypad {
     }
     let new_value = self.get_value() & 0x0f;
 
-    if new_value < prev_value { // a bit went low
+    if prev_value & !new_value != 0 { // a bit went low
       self.next_interrupt = InterruptFlag::joypad();
     }
   }
@@ -69,7 +69,8 @@ impl Joypad {
     self.select_direction = value & 0x10 == 0;
     self.select_action = value & 0x20 == 0;
     let new_value = self.get_value() & 0x0f;
-    if new_value < prev_value {
+    // a line went low; other lines may have gone high at the same time
+    if prev_value & !new_value != 0 {
       self.next_interrupt = InterruptFlag::joypad();
     }
   }
